@@ -73,42 +73,52 @@ def _is_utf8(b: bytes) -> bool:
 
 def fam_relay(w: World) -> None:
     ch = w.ch
-    ctype, hdr_class = _header(ch)
-    body, body_kind, info = _body(ch)
     status_fn = ch.choice(sorted(H.STATUS_FUNCTIONS), 'status_fn')
     path = ch.choice(['/api', '/rpc/v2', '/x/'], 'path')
     sub = ch.choice([None, '/sub'], 'sub')
-    use_sub = bool(sub) and bool(ch.draw(2, 'use_sub'))
-    n = len(info['doc']) if isinstance(info['doc'], list) else 1
-    max_batch = ch.choice([None, None, 1, n], 'max_batch')
+    max_batch = ch.choice([None, None, 1, 3], 'max_batch')
     flavour = ch.choice(['async', 'mixed', 'sync'], 'aio.flavour')
-    S.plan_pauses(w, {'async': True, 'middlewares': [], 'handlers': {}}, n + 1)
-    if S.outside_quantifier(w, body.decode('utf-8', 'replace')):
-        return
-    w.scenario = {'content_type': ctype, 'header_class': hdr_class, 'body_kind': body_kind,
-                  'body': body[:200].decode('utf-8', 'replace'), 'status_fn': status_fn, 'path': path, 'sub': sub,
-                  'use_sub': use_sub, 'max_batch_size': max_batch}
-    w.nontrivial = hdr_class != 'documented' or body_kind != 'valid'
-    if hdr_class != 'documented':
-        w.fault('hdr_' + hdr_class)
-    if body_kind != 'valid':
-        w.fault('body_' + body_kind)
+    n_posts = 1 + ch.draw(3, 'posts')
+    S.plan_pauses(w, {'async': True, 'middlewares': [], 'handlers': {}}, 5)
+    w.scenario = {'status_fn': status_fn, 'path': path, 'sub': sub, 'max_batch_size': max_batch, 'posts': []}
+    hops: Dict[str, Any] = {}
+    for name in ('aiohttp', 'flask', 'werkzeug'):
+        kwargs = {'max_batch_size': max_batch}
+        hops[name] = H.AiohttpHop(w, path, sub, status_fn, kwargs, flavour) if name == 'aiohttp' \
+            else H.HOPS[name](w, path, sub, status_fn, kwargs)
+    for k in range(n_posts):
+        ctype, hdr_class = _header(ch)
+        body, body_kind, info = _body(ch)
+        use_sub = bool(sub) and bool(ch.draw(2, 'use_sub'))
+        if S.outside_quantifier(w, body.decode('utf-8', 'replace')):
+            continue
+        w.scenario['posts'].append({'content_type': ctype, 'header_class': hdr_class, 'body_kind': body_kind,
+                                    'body': body[:200].decode('utf-8', 'replace'), 'use_sub': use_sub})
+        if hdr_class != 'documented' or body_kind != 'valid' or k > 0:
+            w.nontrivial = True
+        if hdr_class != 'documented':
+            w.fault('hdr_' + hdr_class)
+        if body_kind != 'valid':
+            w.fault('body_' + body_kind)
+        _one_post(w, hops, k, ctype, hdr_class, body, body_kind, status_fn, path, sub, use_sub)
+        if w.violations:
+            return
+
+
+def _one_post(w: World, hops: Dict[str, Any], k: int, ctype: Optional[str], hdr_class: str, body: bytes, body_kind: str,
+              status_fn: str, path: str, sub: Optional[str], use_sub: bool) -> None:
     mt = ctype.split(';')[0].strip() if ctype is not None else None
     documented = mt in DOCUMENTED
     results: Dict[str, H.HopResult] = {}
     for name in ('aiohttp', 'flask', 'werkzeug'):
-        kwargs = {'max_batch_size': max_batch}
-        if name == 'aiohttp':
-            hop: Any = H.AiohttpHop(w, path, sub, status_fn, kwargs, flavour)
-        else:
-            hop = H.HOPS[name](w, path, sub, status_fn, kwargs)
+        hop = hops[name]
         url = path.rstrip('/') + (sub if use_sub and name != 'werkzeug' else '')
         before = len(w.history)
         res = hop.post(url or '/', body, ctype)
         results[name] = res
         execs = [r for r in w.history[before:] if r['kind'] == 'method.enter']
         ctx = {'integration': name, 'header_class': hdr_class, 'media_type': mt, 'body_kind': body_kind,
-               'status_fn': status_fn if hop.has_status_fn else 'n/a'}
+               'status_fn': status_fn if hop.has_status_fn else 'n/a', 'post_index': k}
         crashed = [v for _, v in res.dispatched if isinstance(v, tuple) and v and v[0] == '$raised']
         if crashed:
             e = crashed[0][1]
